@@ -220,7 +220,23 @@ def _deep(ip, st, v):
     return v
 
 
-LIB = {("copy", "deepcopy"): lib_deepcopy, "deepcopy": lib_deepcopy,
+def lib_islice(ip, st, pos, kws):
+    """itertools.islice(it, n): at most n further values of the underlying iterator (which advances with it)"""
+    from .sym import NoneV
+    it = pos[0]
+    if not (isinstance(it, Ref) and isinstance(st.heap[it.cid], IterCell)) or len(pos) != 2:
+        raise U("islice form")
+    cell = st.heap[it.cid]
+    if getattr(cell, "kind", None) is not None or getattr(cell, "live", None) is not None:
+        raise U("islice over a special iterator")
+    limit = None if isinstance(pos[1], NoneV) else ADD(cell.cursor, ip.num(pos[1]))
+    nc = IterCell(cell.src, cell.cursor, None, limit)
+    nc.shared = it
+    ip.assumptions.add("library contract (tier A): itertools.islice(it, n) delivers at most n further values of it")
+    return [(st, ip.new_cell(st, nc))]
+
+
+LIB = {("itertools", "islice"): lib_islice, ("copy", "deepcopy"): lib_deepcopy, "deepcopy": lib_deepcopy,
        ("pickle", "dump"): lib_pickle_dump, "pickle.dump": lib_pickle_dump,
        ("pickle", "load"): lib_pickle_load, "pickle.load": lib_pickle_load,
        ("os", "replace"): lib_os_replace, ("os", "rename"): lib_os_replace, ("os", "remove"): lib_os_remove,
